@@ -82,6 +82,20 @@ def e_twin(ck, seed):
             snap2 = (dict(p.__dict__), dict(p.text.__dict__), dict(p.bg.__dict__))
             if again != first: bad = {'clause': 'repeated call on the same ColorPair differs', 'text': t, 'bg': b, 'large': l, 'mode': m, 'very_readable': v, 'first': first, 'again': again}; break
             if snap2 != snap: bad = {'clause': 'make_readable altered the ColorPair', 'text': t, 'bg': b, 'before': str(snap)[:200], 'after': str(snap2)[:200]}; break
+    # position in a bulk list: every item of a mixed list (2- and 3-element entries, both text sizes) gives, at every position, what it gives alone
+    if not bad:
+        import itertools
+        items = [('#8a8a8a', '#ffffff'), ('#8a8a8a', '#ffffff', True), ((150, 150, 150), (255, 255, 255)), ('#777777', '#ffffff', False), ((150, 150, 150), (255, 255, 255), True)]
+        for m, v in ((1, False), (0, True)):
+            alone = [lib.make_readable_bulk([it], mode=m, very_readable=v)[0] for it in items]
+            perms = list(itertools.permutations(range(len(items))))
+            for perm in (perms if ck.tier != 'quick' else perms[::7]):
+                got = lib.make_readable_bulk([items[i] for i in perm], mode=m, very_readable=v)
+                for pos, i in enumerate(perm):
+                    if got[pos] != alone[i]:
+                        bad = {'clause': 'result depends on the position in a bulk list', 'list': [items[j] for j in perm], 'position': pos, 'mode': m, 'very_readable': v, 'in_list': got[pos], 'alone': alone[i]}; break
+                if bad: break
+            if bad: break
     # threads
     if not bad:
         results = [None] * 8; errs = []
@@ -162,6 +176,9 @@ def run(args):
         except SyntaxError as e: ck.notes.append(f"canary '{cname}': mutant does not parse ({e}) - skipped"); continue
         killed = [o['name'] for o in o2 if o['ok'] is False]
         ck.self_test(f'canary {cname}', bool(killed), f'killed by {killed[0]}' if killed else 'mutant still passes the frame check')
+    # "at any position in a bulk list": each entry of make_readable_bulk is a function of that entry and the settings alone - the per-iteration obligation of check C12 (engine A)
+    from vf.engine_a import verify_many
+    ck.absorb_A(verify_many([('cm_colors.core.cm_colors:make_readable_bulk', None)], variant='c12'))
     bad = e_twin(ck, args.seed)
     if bad:
         if ck.violations:
